@@ -1133,6 +1133,11 @@ func runSweepGuard(c *core.Ctx) {
 		}
 		var markSets []ssa.Value
 		resolvedAll := true
+		// the walked manifest itself: an insertion keyed by the digest of an element of a descriptor list that is not a
+		// field of a manifest (the worklist); opaque: an insertion whose key cannot be told (a helper's parameter)
+		selfMarked := map[ssa.Value]bool{}
+		opaqueFor := map[ssa.Value]bool{}
+		opaqueInsert := false
 		for _, sf := range sharedStoreFuncs(c) {
 			an.Instrs(sf, func(in ssa.Instruction) {
 				var m, key ssa.Value
@@ -1147,7 +1152,29 @@ func runSweepGuard(c *core.Ctx) {
 				if m == nil {
 					return
 				}
+				if mt, isMap := m.Type().Underlying().(*types.Map); isMap {
+					if bt, isB := mt.Elem().Underlying().(*types.Basic); !isB || bt.Kind() != types.Bool {
+						if _, isStruct := mt.Elem().Underlying().(*types.Struct); !isStruct {
+							return
+						}
+					}
+				}
 				root, pth := accessPath(an.Strip(key))
+				mmAny := made(m, 0)
+				if root != nil && len(pth) == 2 && pth[0] == "[]" && pth[1] == "Digest" && strings.HasPrefix(root.Type().String(), "[]") && strings.HasSuffix(root.Type().String(), "types.Descriptor") {
+					if mmAny != nil {
+						selfMarked[mmAny] = true
+					} else {
+						opaqueInsert = true
+					}
+				} else if mmAny == nil {
+					// a set that cannot be followed to where it was made may be the mark set
+					opaqueInsert = true
+				} else if root == nil || len(pth) == 0 {
+					opaqueFor[mmAny] = true
+				} else if _, isParam := an.Origin(root).(*ssa.Parameter); isParam {
+					opaqueFor[mmAny] = true
+				}
 				if len(pth) < 2 || pth[len(pth)-1] != "Digest" || pth[len(pth)-2] != "Config" || root == nil {
 					return
 				}
@@ -1167,6 +1194,10 @@ func runSweepGuard(c *core.Ctx) {
 			}
 			c.SetTags("safety")
 			c.Check(same, "keep-set-is-mark-set", del.Pos(), "the set whose members the sweep spares (made at %s) is the set the mark phase puts the config digest of every walked image into (made at %s): %v — a sweep that consults another set deletes the configs and layers of retained images", c.P.Pos(km.Pos()), c.P.Pos(markSets[0].Pos()), same)
+			if same && !opaqueInsert && !opaqueFor[km] {
+				c.SetTags("safety")
+				c.Check(selfMarked[km], "walked-manifest-marked", del.Pos(), "the mark phase puts the digest of the manifest it takes from the worklist itself into the set the sweep spares (made at %s): %v — otherwise the manifests of retained images are swept while their configs and layers stay", c.P.Pos(km.Pos()), selfMarked[km])
+			}
 		}
 	}
 	// (2) grace test
@@ -1656,6 +1687,30 @@ func runConvertMark(c *core.Ctx) {
 		}})
 	c.SetTags("marker")
 	c.Check(bad == "", "annotation-set:"+kn(c.P.FuncName(ingest)), ingest.Pos(), "%s", map[bool]string{true: "every normal exit that passed the ‘not yet converted’ edge has set the converted annotation", false: bad}[bad == ""])
+	// the conversion runs only with the referrers API switched on: the place that marks the index as converted is
+	// dominated by the true edge of the setting (in the ingest, or at the call of a conversion step of its own) — an
+	// index converted with the API off is refused at the next load
+	if len(setBlocks) > 0 {
+		entryGuarded := false
+		if ingest != entry && entry != nil {
+			an.Calls(entry, func(call ssa.CallInstruction) {
+				if call.Common().StaticCallee() == ingest {
+					if t, _ := settingGuards(call.Block()); t["API.Referrer.Enabled"] {
+						entryGuarded = true
+					}
+				}
+			})
+		}
+		unguarded := token.NoPos
+		for _, b := range setBlocks {
+			if t, _ := settingGuards(b); !t["API.Referrer.Enabled"] && !entryGuarded && unguarded == token.NoPos {
+				unguarded = an.BlockPos(b)
+			}
+		}
+		c.SetTags("setting")
+		c.Check(unguarded == token.NoPos, "conversion-needs-setting:"+kn(c.P.FuncName(ingest)), ingest.Pos(), "the index is marked as converted only behind the true edge of the referrers setting: %v (the marking at %s is reachable with the API switched off: fallback tags are rewritten although the operator disabled the feature, and the next load refuses the index)", unguarded == token.NoPos, c.P.Pos(unguarded))
+		c.SetTags("marker")
+	}
 	// modified = true on the edge leaving the conversion
 	modOK := false
 	for _, sb := range setBlocks {
